@@ -67,6 +67,28 @@ def module_cases(c):
     return out
 
 
+def ext_switch(c):
+    """Ext.tla: the extension switch (outside C13's statement: evidence only, never a verdict)"""
+    import os
+    import subprocess
+
+    def cfg(name, nest, restore, inv):
+        p = os.path.join(c.wd, name)
+        open(p, "w").write("INIT Init\nNEXT Next\nCONSTANTS\n  MaxNest = %d\n  RestoreOnExit = %s\nINVARIANT %s\nCHECK_DEADLOCK FALSE\n" % (nest, "TRUE" if restore else "FALSE", inv))
+        return p
+    c.mc("Ext", cfg("MC_Ext.cfg", 1, False, "NestedRestores"), workers=2, require_actions=["Enter", "Exit"])      # no nesting: as built is fine
+    c.mc("Ext", cfg("MC_Ext_restore.cfg", 3, True, "NestedRestores"), workers=2)                                    # a restoring exit would be fine at any depth
+    c.mc_expect_violation("Ext", cfg("MC_Ext_nested.cfg", 3, False, "NestedRestores"), "NestedRestores")            # as built, nested
+    code = ("import sys; sys.path.insert(0, %r); import qenv; import optimum.quanto.library.ops as o\n"
+            "from optimum.quanto.library import disable_extensions\n"
+            "obs=[o._ext_enabled]\n"
+            "with disable_extensions():\n obs.append(o._ext_enabled)\n with disable_extensions():\n  obs.append(o._ext_enabled)\n obs.append(o._ext_enabled)\n"
+            "obs.append(o._ext_enabled); print(obs)" % os.path.join(os.path.dirname(os.path.dirname(os.path.abspath(__file__))), "harness"))
+    r = subprocess.run(["/venv/bin/python", "-c", code], capture_output=True, text=True, timeout=300)
+    c.extra["extension_switch_observed"] = {"sequence(enabled): outside, in, in-in, back-in-outer, outside": r.stdout.strip().splitlines()[-1] if r.stdout.strip() else r.stderr[-200:],
+                                             "note": "as-built exit re-enables extensions inside an outer context (Ext.tla NestedRestores violated with nesting); outside C13's statement"}
+
+
 def body(c, judge):
     need = {"C08": ["Quantize", "Forward"], "C09": ["Freeze", "DeepCopy"], "C10": ["Save", "Load"], "C11": ["OptStep", "Forward"],
             "C13": ["RaiseIn", "ExitCalib", "Forward", "LibCall"]}[judge]
@@ -76,6 +98,8 @@ def body(c, judge):
         dirs = random.Random(c.seed).sample(dirs, 400)
     if judge == "C08":
         dirs += module_cases(c)
+    if judge == "C13":
+        ext_switch(c)
     tr, consts = L.run(c, judge, dirs, need_actions=need)
     ctrls = []
     if judge == "C13":
